@@ -6,7 +6,9 @@
 package opticsdrv
 
 import (
+	"fmt"
 	"math"
+	"reflect"
 	"unsafe"
 )
 
@@ -118,10 +120,53 @@ func IdxPInt(v *int) int {
 	return idx3(v == nil, v == &I1, v == &I2)
 }
 
-func MkAny(k int) any { return [3]any{nil, float64(0), negZero}[k%3] }
+// `any`: the nil interface; two boxed floats that are equal but not identical; and four NON-nil interfaces that hold
+// a nil: pointer, map, slice, func.  They are told apart by dynamic type and data word, never with ==.
+func MkAny(k int) any {
+	return [7]any{nil, float64(0), negZero, (*int)(nil), map[string]int(nil), []byte(nil), (func())(nil)}[k%7]
+}
 func IdxAny(v any) int {
-	f, ok := v.(float64)
-	return idx3(v == nil, ok && math.Float64bits(f) == 0, ok && math.Float64bits(f) == 1<<63)
+	switch x := v.(type) {
+	case nil:
+		return 0
+	case float64:
+		return idx3(false, math.Float64bits(x) == 0, math.Float64bits(x) == 1<<63)
+	case *int:
+		if x == nil {
+			return 3
+		}
+	case map[string]int:
+		if x == nil {
+			return 4
+		}
+	case []byte:
+		if x == nil {
+			return 5
+		}
+	case func():
+		if x == nil {
+			return 6
+		}
+	}
+	return -1
+}
+
+// Str implements fmt.Stringer on the pointer: a typed nil *Str inside a fmt.Stringer is a non-nil interface.
+type Str struct{ s string }
+
+func (p *Str) String() string {
+	if p == nil {
+		return "<nil>"
+	}
+	return p.s
+}
+
+var S1 = &Str{"s1"}
+
+func MkStringer(k int) fmt.Stringer { return [3]fmt.Stringer{nil, (*Str)(nil), S1}[k%3] }
+func IdxStringer(v fmt.Stringer) int {
+	p, ok := v.(*Str)
+	return idx3(reflect.TypeOf(v) == nil, ok && p == nil, ok && p == S1)
 }
 
 func MkArr3(k int) [3]int8 { return [3][3]int8{{}, {1, 2, 3}, {-1, -2, -3}}[k%3] }
